@@ -253,7 +253,9 @@ def run(ctx):
                                               ("mix", "test", "train")),
                    depth=2),
               dict(fmt="fb", eps=1, letters=A(("root", "x", "x/y", "multi3"),
-                                              ("mix",)), depth=3)]
+                                              ("mix",)), depth=3),
+              dict(fmt="fb", eps=2, letters=A(("x", "rej", "root"),
+                                              ("train", "mix")), depth=2)]
     sub = core.Ctx("C04", ctx.tier, ctx.seed)  # model-checking style counters
     sub.findings = ctx.findings
     opseq.run_bfs_check(sub, TAGS, pl)
